@@ -2,7 +2,7 @@
 
 # result sorts, used when a function is opaque (uninterpreted) in a proof that does not need its definition
 SIG = {'length_ok': 'bool', 'length_octets': 'int[nat]', 'length_value': 'int[nat]', 'tlv_ok': 'bool', 'tlv_size': 'int[nat]',
-       'tlv_content': 'bytes', 'explicit_ok': 'bool', 'int_value': 'int', 'int_minimal': 'bool', 'lemma_len_prefix': 'bool', 'lemma_tlv_build': 'bool'}
+       'tlv_content': 'bytes', 'explicit_ok': 'bool', 'int_value': 'int', 'int_minimal': 'bool', 'lemma_len_prefix': 'bool', 'lemma_tlv_build': 'bool', 'lemma_len_trunc': 'bool', 'lemma_tlv_prefix': 'bool'}
 
 
 
@@ -95,3 +95,16 @@ def lemma_tlv_build(t, d, p):
     return implies(0 <= t and t <= 255 and length_ok(d + p) and length_octets(d + p) == len(d) and length_value(d + p) == len(p),
                    tlv_ok(bytes([t]) + d + p, t) and tlv_size(bytes([t]) + d + p) == 1 + len(d) + len(p)
                    and tlv_content(bytes([t]) + d + p) == p)
+
+
+def lemma_len_trunc(d, n):
+    """the length octets only look at their own octets: cutting the data after them changes nothing"""
+    return implies(length_ok(d) and length_octets(d) <= n and n <= len(d),
+                   length_ok(d[:n]) and length_octets(d[:n]) == length_octets(d) and length_value(d[:n]) == length_value(d))
+
+
+def lemma_tlv_prefix(b, t):
+    """a TLV at the front of b is a TLV on its own: b[:tlv_size(b)]"""
+    return implies(tlv_ok(b, t),
+                   tlv_ok(b[:tlv_size(b)], t) and tlv_size(b[:tlv_size(b)]) == tlv_size(b) and tlv_size(b) <= len(b) and tlv_size(b) >= 2
+                   and tlv_content(b[:tlv_size(b)]) == tlv_content(b) and b[:tlv_size(b)][0] == b[0])
